@@ -86,6 +86,7 @@ def rendered_back(ctx):
   for w in ('performance_lib:BasePerformance._to_sequence', 'performance_lib:NotePerformance.to_sequence'):
     C06.grid(ctx, C06.canon_renderer(ctx.func(w)), {})
   C06.note_off_ends_one(ctx, 'RENDER/note-off-ends-one')
+  C06.chord_symbols_all_read(ctx, 'CHORD/symbols-all-read')      # "a ChordProgression has the chord in force at every step": a N.C. symbol ends the chord before it
   C09.velocity(ctx)
 
 
@@ -659,3 +660,4 @@ MUTANTS = [
 RENAME_FUNCS = [(PL, 'BasePerformance._from_quantized_sequence'), (ML, 'Melody.from_quantized_sequence'), (CL, 'ChordProgression.from_quantized_sequence'), (DL, 'DrumTrack.from_quantized_sequence')]
 
 EXPLANATION += (' Shared with C06 / C09 for the performance renderers: GRID, ORIGIN/start-step-once, RENDER/note-off-ends-one, VEL/bin-size.' + ' Location-independent additions: ROLL/gap-index-in-range (a store into row O-1 needs 0 < O; found F26), ROLL/pitch-range-inclusive (boundary scenarios pitch == min/max +-1), CHORD/previous-step (a carried step is never a clamped constant), MEL/gap-bar-length, DRUM/gap normal form.')
+EXPLANATION += (' Round 7: ' + 'PITFALL/falsy-domain-zero over the extractor modules; CHORD/symbols-all-read and the performance renderer rules shared with C06 / C09.')
